@@ -215,9 +215,13 @@ def run(ctx, rep):
     table = None
     if len(wl) == 1 and len(asg) == 1:
         table = {}
+        lets = {}
+        for st_ in find_all(wl[0]['body'], lambda n: n.get('k') == 's_let'):
+            if st_['pat'].get('k') == 'p_ident' and st_.get('init'):
+                lets[st_['pat']['name']] = st_['init']
         for esc in (False, True):
             for ch in ('\\', 'x'):
-                table[(esc, ch)] = eval_delta(asg[0]['r'], esc, ch)
+                table[(esc, ch)] = eval_delta(asg[0]['r'], esc, ch, lets)
     want = {(False, '\\'): True, (False, 'x'): False, (True, '\\'): False, (True, 'x'): False}
     rep.table('escape_delta', {'%s,%s' % k: v for k, v in (table or {}).items()})
     for k in want:
@@ -296,43 +300,46 @@ def run(ctx, rep):
     rep.count('bump_sites', nb)
 
 
-def eval_delta(e, escaped, ch):
+def eval_delta(e, escaped, ch, lets=None):
+    lets = lets or {}
     """evaluate the right-hand side of `escaped = <expr>` for a flag value and the character just consumed.
     Recognised vocabulary: self.bump() (the consumed char), Some('..'), ==, !=, &&, ||, !, escaped, literals."""
     k = e.get('k')
     if k == 'binary':
         op = e['op']
         if op in ('&&', '||'):
-            l = eval_delta(e['l'], escaped, ch)
-            r = eval_delta(e['r'], escaped, ch)
+            l = eval_delta(e['l'], escaped, ch, lets)
+            r = eval_delta(e['r'], escaped, ch, lets)
             if l is None or r is None:
                 return None
             return (l and r) if op == '&&' else (l or r)
         if op in ('==', '!='):
-            l = eval_delta(e['l'], escaped, ch)
-            r = eval_delta(e['r'], escaped, ch)
+            l = eval_delta(e['l'], escaped, ch, lets)
+            r = eval_delta(e['r'], escaped, ch, lets)
             if l is None or r is None:
                 return None
             return (l == r) if op == '==' else (l != r)
         return None
     if k == 'unary' and e['op'] == '!':
-        v = eval_delta(e['expr'], escaped, ch)
+        v = eval_delta(e['expr'], escaped, ch, lets)
         return None if v is None else (not v)
     if k == 'path' and e['path'] == ['escaped']:
         return escaped
     if k == 'mcall' and e['method'] == 'bump':
         return ('some', ch)
     if k == 'call' and path_of(e['func']) == ['Some'] and len(e['args']) == 1:
-        v = eval_delta(e['args'][0], escaped, ch)
+        v = eval_delta(e['args'][0], escaped, ch, lets)
         return ('some', v)
     if k == 'lit' and e.get('lit') == 'char':
         return e['value']
     if k == 'lit' and e.get('lit') == 'bool':
         return e['value']
+    if k == 'path' and len(e['path']) == 1 and e['path'][0] in lets:
+        return eval_delta(lets[e['path'][0]], escaped, ch, lets)
     if k == 'path' and e['path'] == ['c']:
         return ch
     if k == 'macro' and e['name'] == 'matches' and e.get('scrutinee'):
-        s_ = eval_delta(e['scrutinee'], escaped, ch)
+        s_ = eval_delta(e['scrutinee'], escaped, ch, lets)
         p = e['pat']
         if p['k'] == 'p_tuple_struct' and p['path'] == ['Some'] and p['elems'][0]['k'] == 'p_lit':
             return s_ == ('some', p['elems'][0]['lit']['value'])
